@@ -161,6 +161,7 @@ static int ck_close(void *c) {
   int rc = 0;
   if (k->w && mutating("close", k->path.c_str())) rc = -1;
   fdpath.erase(k->fd);
+  for (auto it = cookie_fd.begin(); it != cookie_fd.end();) { if (it->second == k->fd) it = cookie_fd.erase(it); else ++it; }   // the simulator itself must not grow
   __real_close(k->fd);
   delete k;
   return rc;
